@@ -107,11 +107,19 @@ def minrange2minmax(vals: np.ndarray, min_range: Union[int, float] = 0) -> tuple
     ``[min(vals), max(vals)]``. Else, it returns ``[val_mid-min_range/2, val_mid+min_range/2]``,
     with ```val_mid=(max(vals)+min(vals))/2``.
 
+    The range returned is never empty: identical values with no (or a zero) minimum range requested
+    get a unit range around them, since a zero range cannot be mapped onto [0, 1] (the scaled values
+    would all be 0/0, i.e. NaN, and the corresponding hits would be taken for non-detections).
+
     """
 
     val_range = np.nanmax(vals) - np.nanmin(vals)
-    if val_range >= min_range:
+    if val_range >= min_range and val_range > 0:
         return (np.nanmin(vals), np.nanmax(vals))
+
+    # An empty range cannot be scaled: fall back to a unit range around the (single) value
+    if min_range <= 0:
+        min_range = 1
 
     # Compute the middle of the data
     val_mid = (np.nanmax(vals) + np.nanmin(vals))/2
